@@ -9,8 +9,10 @@ Line-protocol front end of the C10 model (requests after the leading `C10` field
   hist <counts,…> <recv;recv;…>       → valid|invalid TAB pattern|nopattern TAB dups:lost:alien
        recv := i:k,i:k,… | -
   spawn <vars,…> <shared,…> <op,op,…> → <obs,…>
-       op  := a:i:v | g:i:v | sp:(e|f):i.i.i | k:sl:i:v | run:t | w:t        (i.i.i = argument variables, `-` if none)
-       obs := B | u | sp:t:slice | ran:R | w:R        R := (r|e) "." v.v.v
+       op  := a:i:v | g:i:v | sp:(e|f|p|o):A.A.A | k:sl:i:v | run:t | w:t    (A.A.A = argument expressions, `-` if none)
+       A   := i (variable v_i) | c<n> | cm<n> (literal n / -n) | t<i> (nested call tick_i()) | d<A> (nested call dbl(A))
+       body: e = returns, f = raises, p = Go panic in a builtin it calls, o = Go panic by frame overflow (both `Body.panic`)
+       obs := B | u | sp:t:slice:v.v.v | ran:R | w:R        R := (r|e|p) "." v.v.v     (sp: v.v.v = spawner's variables after the statement)
 -/
 namespace Risor.C10
 open Risor.Util
@@ -56,13 +58,24 @@ def parseMsg (s : String) : Option Msg :=
 def parseBody : String → Option Body
   | "e" => some .echo
   | "f" => some .fail
+  | "p" => some .panic
+  | "o" => some .panic
   | _ => none
+
+def parseArgC : List Char → Option Arg
+  | 'd' :: rest => (parseArgC rest).map .dbl
+  | 't' :: rest => (natOf (String.ofList rest)).map .tick
+  | 'c' :: 'm' :: rest => (natOf (String.ofList rest)).map fun n => .lit (-(n : Int))
+  | 'c' :: rest => (natOf (String.ofList rest)).map fun n => .lit (n : Int)
+  | cs => (natOf (String.ofList cs)).map .var
+
+def parseArg (s : String) : Option Arg := parseArgC s.toList
 
 def parseTOp (s : String) : Option TOp :=
   match s.splitOn ":" with
   | ["a", i, v] => do pure (.assign (← natOf i) (← intOf v))
   | ["g", i, v] => do pure (.setShared (← natOf i) (← intOf v))
-  | ["sp", b, args] => do pure (.spawn (← (listOf "." args).mapM natOf) (← parseBody b))
+  | ["sp", b, args] => do pure (.spawn (← (listOf "." args).mapM parseArg) (← parseBody b))
   | ["k", sl, i, v] => do pure (.poke (← natOf sl) (← natOf i) (← intOf v))
   | ["run", t] => do pure (.runT (← natOf t))
   | ["w", t] => do pure (.wait (← natOf t))
@@ -74,11 +87,12 @@ def showInts (vs : List Int) : String :=
 def showOutcome : Outcome → String
   | .ret vs => "r." ++ showInts vs
   | .err vs => "e." ++ showInts vs
+  | .panicked vs => "p." ++ showInts vs
 
 def showTObs : Option TObs → String
   | none => "B"
   | some .unit => "u"
-  | some (.spawned t sl) => "sp:" ++ toString t ++ ":" ++ toString sl
+  | some (.spawned t sl vars) => "sp:" ++ toString t ++ ":" ++ toString sl ++ ":" ++ showInts vars
   | some (.ran r) => "ran:" ++ showOutcome r
   | some (.waited r) => "w:" ++ showOutcome r
 
